@@ -513,15 +513,27 @@ def lambda_repl(lam: ast.Lambda) -> Optional[str]:
     return ''.join(out)
 
 
-def regex_literal_alternatives(pat: str) -> List[Optional[str]]:
+def regex_literal_alternatives(pat: str, blanks: bool = False) -> List[Optional[str]]:
     """Literal strings a pattern can match when it is a finite union of literals (None entries for
-    alternatives that are not literal)."""
+    alternatives that are not literal).  With blanks=True a run of blanks (`[ \\t]+`, `\\s+`, ` +`) between words stands for one space: the
+    result is then a representative of each alternative, not the full language."""
     import re._parser as sp
     import re._constants as sc
+
+    def blank_item(item) -> bool:
+        op, av = item
+        if op is sc.LITERAL:
+            return chr(av) in ' \t'
+        if op is sc.IN:
+            return all((o is sc.LITERAL and chr(v) in ' \t\n\r\f\v') or (o is sc.CATEGORY and v is sc.CATEGORY_SPACE) for o, v in av)
+        return False
 
     def expand(seq) -> Optional[List[str]]:
         acc = ['']
         for op, av in seq:
+            if blanks and op in (sc.MAX_REPEAT, sc.MIN_REPEAT) and av[0] >= 1 and len(av[2]) == 1 and blank_item(av[2][0]):
+                acc = [a + ' ' for a in acc]
+                continue
             if op is sc.LITERAL:
                 acc = [a + chr(av) for a in acc]
             elif op is sc.SUBPATTERN:
